@@ -109,14 +109,13 @@ PROPS = {
              "last drop on an un-joined thread, creation races, inner-node / token handles outliving the root, data slots, resolved trees, shared green trees) over "
              "the UN-HOOKED crate under Miri's happens-before race detector with weak-memory emulation, 4 (thorough 32) schedules each; non-trivial = the "
              "scheduler had a real choice / every Miri run; distinct = distinct trace",
-        assumptions=["the model covers the release/acquire fragment: RMWs on one counter, hand-over of handles through synchronising operations of safe Rust; locks "
+        assumptions=["green elements, interners and caches rely on triomphe/std `Arc`, lasso and `&mut` exclusivity: not in the happens-before model (Miri programs only); the value handed out by `get_data` is a std `Arc<D>` whose own protocol is trusted", "the model covers the release/acquire fragment: RMWs on one counter, hand-over of handles through synchronising operations of safe Rust; locks "
                      "(parking_lot) and Arc (triomphe, std) are assumed data-race free themselves",
                      "`Model/MemModel` (the one the scheduler traces are replayed through) treats accesses of handle holders as non-conflicting among themselves; `Model/MemSlots` "
                      "removes that assumption for the child slots (slot locks + references handed out of a slot + teardown) and is proved race free for all interleavings "
                      "(`slot_accesses_race_free`); it is tied to the source by the extracted lock modes (`slot_facts`) and by the lock-set check on every scheduled execution",
                      "Miri explores a handful of schedules per program; it is the search for a failing execution, the theorem is what covers all interleavings"],
-        not_yet_proved=["the per-node data lock is not in the happens-before model: the value lives inside its `RwLock` (extracted fact `dataSlotInsideLock`), so safe Rust cannot "
-                        "reach it without the lock; green elements, interners and caches rely on triomphe/std `Arc`, lasso and `&mut` exclusivity (Miri programs only)"],
+        not_yet_proved=[],
     ),
     "C08": dict(
         runs=runs([("probe:c08", "rustc")], [("probe:c08", "rustc")]),
